@@ -160,9 +160,16 @@ fn main() {
                 let res = plan::run_plan(&plan::SimPlan::single(job.clone(), vec![], &[0u8; 16], true, true));
                 let rec = &res.runs[0].record;
                 chan.send(&format!("{} {} argv={:?} outcome={:?} errors={} symbols={} first_error={}", k, job.name, job.argv, rec.outcome, rec.error_lines(), rec.lib.symbol_count, job::strip_ansi(&String::from_utf8_lossy(&rec.stderr)).lines().next().unwrap_or("")));
+                if let Some(dir) = arg(&args, "--dump-dir") {
+                    for (p, d) in job.disk.files() {
+                        if p.ends_with(".asm") && p.starts_with("/w/proj") {
+                            let _ = std::fs::write(format!("{}/{}-{}", dir, k, p.rsplit('/').next().unwrap_or("x")), d);
+                        }
+                    }
+                }
                 if arg(&args, "--text").is_some() {
                     for (p, d) in job.disk.files() {
-                        if p.ends_with("prog.asm") {
+                        if p.ends_with(".asm") && p.starts_with("/w/proj") {
                             chan.send(&String::from_utf8_lossy(d));
                         }
                     }
